@@ -1836,6 +1836,13 @@ _RT22 = {
                 '                following.material_post = following.material_pre\n',
            '')),
     ],
+    'C02': [
+        # made the algebra of NORMAL-GRADIENT run for hours before additions
+        # were budgeted and rules got a deadline
+        M('rt22-chebyshev-normal-times-norm',
+          (O + 'geometries/chebyshev.py', '        nx = dzdx / norm\n',
+           '        nx = dzdx * norm\n')),
+    ],
     'C19': [
         M('rt22-solves-lost-on-reload',
           (O + 'solves.py', '            solve_manager.solves.append(solve)\n',
